@@ -161,6 +161,7 @@ func cmdCheck(args []string) int {
 	var funcErrs []string
 	var fnNames []string
 	var trustedUsed []string
+	var abstractedClosures []string // loop-carrying closures replaced by their write set: their bodies carry no obligations
 	done := map[string]bool{}
 	// worklist: functions carrying clauses of the property, then (transitively) every callee whose contract was used at a
 	// call site. A callee's contract is an assumption of the caller's proof whatever its tags, so all of its obligations
@@ -191,6 +192,9 @@ func cmdCheck(args []string) int {
 			funcErrs = append(funcErrs, ct.Key+": "+e)
 		}
 		if res.Root != nil {
+			for _, a := range res.Root.abstracted {
+				abstractedClosures = appendUnique(abstractedClosures, a+" (called from "+ct.Key+")")
+			}
 			for _, o := range res.Root.obls {
 				if it.all || oblServes(o, *prop) {
 					obls = append(obls, o)
@@ -504,6 +508,7 @@ func cmdCheck(args []string) int {
 				"bounded":                  boundedInfo,
 				"replayed_counterexamples": canaryInfo,
 				"entry_hypotheses":         entryHyp,
+				"closures_abstracted":      abstractedClosures,
 			},
 			"assumptions": standingAssumptions,
 			"wall_s":      round2(wall),
@@ -531,6 +536,7 @@ var standingAssumptions = []string{
 	"ghost function sumDur: its two defining equations plus prefix-independence and monotonicity (inductive consequences) are assumed as axioms",
 	"ghost axioms of the did contracts: authDids.def and covered.def are definitions; pigeon.cover (pigeonhole) is a theorem proved in /verif/lemmas/Pigeonhole.lean and re-checked with lean on every C17 run; its transcription into the SMT axiom is trusted",
 	"a call-site assertion (at Callee assert ...) is an obligation at the call and an assumption afterwards",
+	"a closure that contains a loop is not inlined but replaced by its write set (coverage.closures_abstracted): accepted only if it writes captured variables and own locals and calls read-only callees; panics and non-termination inside it are not checked",
 	"preconditions of entry points (coverage.entry_hypotheses) are hypotheses about the reachable state: each handler re-establishes the clauses it touches, but their conjunction is not discharged as one inductive invariant; only the key-field and id invariants are discharged against genesis",
 }
 
